@@ -1,10 +1,10 @@
 package flow
 
 import (
-	"strings"
 	"fmt"
 	"go/token"
 	"go/types"
+	"strings"
 
 	"golang.org/x/tools/go/ssa"
 )
@@ -18,12 +18,12 @@ type graphKey struct {
 type Mode int
 
 const (
-	ModeErr   Mode = iota // returns whose error result may be nil
-	ModeTrue              // bool predicate returning true
-	ModeFalse             // bool predicate returning false
-	ModeAll               // every return
-	ModeNil               // single pointer result is nil
-	ModeNonNil            // single pointer result is not nil
+	ModeErr    Mode = iota // returns whose error result may be nil
+	ModeTrue               // bool predicate returning true
+	ModeFalse              // bool predicate returning false
+	ModeAll                // every return
+	ModeNil                // single pointer result is nil
+	ModeNonNil             // single pointer result is not nil
 )
 
 type pathKey struct {
